@@ -52,6 +52,8 @@ enum Driver {
     None,
     Comb(usize),
     Ff(usize),
+    /// several comb processes, each driving its own bits (the analyzer rejects overlapping drivers)
+    MultiComb,
     Multi,
 }
 
@@ -65,6 +67,7 @@ pub struct Builder<'a> {
     defs: Vec<(String, usize, String)>,
     assumptions: Vec<String>,
     comb_done: HashMap<usize, Env>,
+    comb_writers: HashMap<VarId, Vec<usize>>,
     comb_busy: HashSet<usize>,
     n: usize,
 }
@@ -184,6 +187,9 @@ impl<'a> Builder<'a> {
     /// value of variable `id` as seen by a reader in process `reader` (None = outputs)
     fn read_var(&mut self, id: &VarId, env: &Env, ff_reader: bool) -> R<T> {
         if !ff_reader && let Some(t) = env.get(id) {
+            if self.driver.get(id) == Some(&Driver::MultiComb) {
+                return Err("process reads a variable whose other bits another process drives".into());
+            }
             return Ok(t.clone());
         }
         if ff_reader && env.contains_key(id) {
@@ -207,6 +213,20 @@ impl<'a> Builder<'a> {
                 let r = self.eval_comb(d)?;
                 r.get(id).cloned().ok_or_else(|| format!("{name}: comb process did not assign it"))
             }
+            Driver::MultiComb => {
+                // bit-disjoint writers, each starting from zeros: the value is the OR of the parts
+                let ws = self.comb_writers.get(id).cloned().unwrap_or_default();
+                let mut acc: Option<T> = None;
+                for d in ws {
+                    let r = self.eval_comb(d)?;
+                    let part = r.get(id).cloned().ok_or_else(|| format!("{name}: comb process did not assign it"))?;
+                    acc = Some(match acc {
+                        None => part,
+                        Some(a) => T { s: format!("(bvor {} {})", a.s, part.s), w: a.w },
+                    });
+                }
+                acc.ok_or_else(|| format!("{name}: no writer"))
+            }
             Driver::Multi => Err(format!("{name}: written by more than one process")),
             Driver::None => Err(format!("{name}: read but never driven")),
         }
@@ -228,7 +248,10 @@ impl<'a> Builder<'a> {
         let ids: Vec<VarId> = self
             .driver
             .iter()
-            .filter(|(_, dr)| **dr == Driver::Comb(d))
+            .filter(|(id, dr)| {
+                **dr == Driver::Comb(d)
+                    || (**dr == Driver::MultiComb && self.comb_writers.get(id).is_some_and(|w| w.contains(&d)))
+            })
             .map(|(id, _)| *id)
             .collect();
         for id in ids {
@@ -849,6 +872,7 @@ pub fn build(m: &air::Module) -> R<J> {
         defs: vec![],
         assumptions: vec![],
         comb_done: HashMap::new(),
+        comb_writers: HashMap::new(),
         comb_busy: HashSet::new(),
         n: 0,
     };
@@ -940,7 +964,14 @@ pub fn build(m: &air::Module) -> R<J> {
         });
         for v in set {
             let e = b.driver.entry(v).or_insert(Driver::None);
-            *e = if *e == Driver::None { dr } else { Driver::Multi };
+            *e = match (*e, dr) {
+                (Driver::None, _) => dr,
+                (Driver::Comb(_) | Driver::MultiComb, Driver::Comb(_)) => Driver::MultiComb,
+                _ => Driver::Multi,
+            };
+            if let Driver::Comb(i) = dr {
+                b.comb_writers.entry(v).or_default().push(i);
+            }
         }
     }
 
